@@ -703,7 +703,7 @@ pub fn run(a: &Args) -> i32 {
         let mut pristine_digest: Option<u64> = None;
         if let Some(p) = &pristine {
             tot.add("guarded_scenarios", 1);
-            match p.ask(&serde_json::to_vec(&sc).unwrap(), if large > 0 { 90 } else { 8 }) {
+            match p.ask(&serde_json::to_vec(&sc).unwrap(), if large > 0 { 90 } else { 2 }) {
                 Some(b) if b.len() == 8 => pristine_digest = Some(u64::from_le_bytes(b.try_into().unwrap())),
                 _ => {
                     tot.add("hazard_skipped", 1);
